@@ -6,3 +6,4 @@ from . import callbacks  # noqa: F401
 from . import statemachine  # noqa: F401
 from . import events  # noqa: F401
 from . import entry  # noqa: F401
+from . import construct  # noqa: F401
